@@ -152,4 +152,5 @@ class Ctx:
             "n_errors": len(self.errors),
             "notes": {k: sorted(v)[:2000] for k, v in self.notes.items()},
             "wall_s": time.time() - self.t0,
+            "uxarray_file": getattr(__import__("sys").modules.get("uxarray"), "__file__", None),
         }
